@@ -686,6 +686,23 @@ func (vc *VC) selectField(env *SpecEnv, x TV, name string) TV {
 			}
 			return TV{vc.loadGhost(env.st, p, bt, name, gty), gty}
 		}
+		// ghost field promoted through a struct embedded by value (x.RWMutex.wheld written as x.wheld)
+		if isPtr {
+			for i := 0; i < st.NumFields(); i++ {
+				f := st.Field(i)
+				if !f.Embedded() {
+					continue
+				}
+				if _, ok := isStruct(f.Type()); !ok {
+					continue
+				}
+				if gt := vc.eng.ghostField(f.Type(), name); gt != nil {
+					gty := env.resolveTypeIn(gt)
+					p := asPtr(x.V, bt).extend(i)
+					return TV{vc.loadGhost(env.st, p, f.Type(), name, gty), gty}
+				}
+			}
+		}
 		env.fail("type %v has no field %s", bt, name)
 	}
 	if isPtr {
